@@ -298,11 +298,13 @@ class Flow:
       ('other', bi, si)    anything else (binop, discriminant, ...)
     """
 
-    def __init__(self, fn, extra_pass=None, only_extra=False):
+    def __init__(self, fn, extra_pass=None, only_extra=False, fx=None):
         self.fn = fn
         self.extra_pass = extra_pass or (lambda t: False)
         self.only_extra = only_extra    # do not use the default pass-through set (order/content-sensitive analyses)
+        self.fx = fx                    # when given, calls of workspace constructor functions are seen as the aggregate they build
         self._memo = {}
+        self._vagg = {}
 
     def origins(self, local, fields=()):
         return self._orig(local, tuple(fields), frozenset())
@@ -343,6 +345,18 @@ class Flow:
                         continue
                     out.add(("const", _const_repr(a0)))
                     continue
+                cs = self._ctor(t)
+                if cs is not None:
+                    rvv = self._virtual_agg(d["bi"], t, cs)
+                    if sub and sub[0] in rvv["fields"]:
+                        o = rvv["ops"][rvv["fields"].index(sub[0])]
+                        if o["k"] in ("copy", "move"):
+                            out |= self._orig(o["pl"]["l"], tuple(place_fields(o["pl"])) + sub[1:], seen)
+                        else:
+                            out.add(("const", _const_repr(o)))
+                    else:
+                        out.add(("agg", d["bi"], "ctor"))
+                    continue
                 out.add(("call", d["bi"], sub))
                 continue
             rv = d["rv"]
@@ -377,11 +391,90 @@ class Flow:
 
     def agg_at(self, o):
         assert o[0] == "agg"
+        if o[2] == "ctor":
+            return self._vagg[o[1]]
         return self.fn.blocks[o[1]]["stmts"][o[2]]["rv"]
+
+    def agg_span(self, o):
+        if o[2] == "ctor":
+            return self.fn.blocks[o[1]]["term"]["sp"]
+        return self.fn.blocks[o[1]]["stmts"][o[2]]["sp"]
+
+    def _ctor(self, t):
+        if self.fx is None:
+            return None
+        k2 = t.get("resolved_key") or (t.get("callee_key") if not t.get("callee_trait") else None)
+        if not k2 or k2 not in self.fx.fns:
+            return None
+        return ctor_summary(self.fx, k2)
+
+    def _virtual_agg(self, bi, t, cs):
+        if bi not in self._vagg:
+            ops = []
+            for src in cs["ops"]:
+                if src[0] == "arg" and src[1] - 1 < len(t["args"]):
+                    ops.append(t["args"][src[1] - 1])
+                else:
+                    ops.append({"k": "const", "ty": src[1] if src[0] == "unit" else "?"})
+            self._vagg[bi] = {"k": "agg", "agg": "adt", "adt": cs["adt"], "variant": cs["variant"], "fields": list(cs["fields"]), "ops": ops,
+                              "ctor": t.get("callee_key")}
+        return self._vagg[bi]
 
     def call_at(self, o):
         assert o[0] == "call"
         return self.fn.blocks[o[1]]["term"]
+
+
+_CTOR_MEMO = {}
+
+
+def ctor_summary(fx, key):
+    """A workspace function that only builds one aggregate from its parameters (`Mu::tilde_mu(var, stmt, ty)`, `Cut::new(..)`):
+    {'adt', 'variant', 'fields', 'ops': [('arg', i) | ('unit', type) | ('other',)]}, or None."""
+    ck = (id(fx), key)
+    if ck in _CTOR_MEMO:
+        return _CTOR_MEMO[ck]
+    _CTOR_MEMO[ck] = None
+    f = fx.fns[key]
+    if len(f["blocks"]) > 40 or "{closure" in key:
+        return None
+    fn = Fn(f)
+    flow = Flow(fn)
+    org = flow.origins(0, ())
+    aggs = [o for o in org if o[0] == "agg"]
+    if len(org) != 1 or len(aggs) != 1:
+        return None
+    rv = flow.agg_at(aggs[0])
+    if rv.get("agg") != "adt" or not rv.get("fields"):
+        return None
+    ops = []
+    for op in rv["ops"]:
+        if op["k"] not in ("copy", "move"):
+            ops.append(("unit", str(op.get("ty") or "")))
+            continue
+        oo = flow.origins(op["pl"]["l"], tuple(place_fields(op["pl"])))
+        if len(oo) == 1 and next(iter(oo))[0] == "arg" and not next(iter(oo))[2]:
+            ops.append(("arg", next(iter(oo))[1]))
+        elif len(oo) == 1 and next(iter(oo))[0] == "agg" and not flow.agg_at(next(iter(oo))).get("ops"):
+            ops.append(("unit", flow.agg_at(next(iter(oo))).get("adt") or ""))
+        else:
+            ops.append(("other",))
+    _CTOR_MEMO[ck] = {"adt": rv["adt"], "variant": rv.get("variant"), "fields": list(rv["fields"]), "ops": ops}
+    return _CTOR_MEMO[ck]
+
+
+def aggregates(fn, fx=None):
+    """(block, statement-like dict with 'rv' and 'sp') for every aggregate built in the function - by an aggregate rvalue or,
+    when fx is given, by a call of a workspace constructor function (seen as the aggregate it builds)"""
+    for bi, si, s in fn.stmts():
+        if s["rv"]["k"] == "agg":
+            yield bi, s
+    if fx is not None:
+        flow = Flow(fn, fx=fx)
+        for bi, t in fn.calls():
+            cs = flow._ctor(t)
+            if cs is not None:
+                yield bi, {"rv": flow._virtual_agg(bi, t, cs), "sp": t["sp"], "lhs": t.get("dest")}
 
 
 def _const_repr(o):
